@@ -101,7 +101,7 @@ PROP = {
                     "Tyme/Lemmas/Cycle.lean", "Tyme/Model/SixtyCycle.lean", "Tyme/Model/Lunar.lean", "Tyme/Model/Term.lean"],
     "gen": [gen_eph],
     "streams": [
-        {"name": "c17.days", "args_thorough": ["all"]},    # every civil date: 16 almanac outputs through both views
+        {"name": "c17.days", "args_thorough": ["all"], "extra_years": True},    # every civil date: 16 almanac outputs through both views
         {"name": "c17.leap"},                              # every day of every leap month of every lunar year, with its regular twin
         {"name": "c17.hours", "args_thorough": ["all"]},   # 13 instants (both Zi halves + 11 double-hours) of every day of the sampled years
         {"name": "c17.years"},                             # every year -2..10000
